@@ -217,6 +217,18 @@ func VerifyPowershell(r io.ReadSeeker, style PsSigStyle, skipDigests bool) (*Pow
 			textSize += int64(len(line))
 		}
 	}
+	// the signature block ends the document: text after it is not covered by the digest
+	for {
+		line, err := readLine(br, isUtf16)
+		if strings.Trim(line, " \t\r\n\x00") != "" {
+			return nil, errors.New("content after the powershell signature block")
+		}
+		if err == io.EOF {
+			break
+		} else if err != nil {
+			return nil, err
+		}
+	}
 	psd, err := pkcs7.Unmarshal(pkcsb.Bytes())
 	if err != nil {
 		return nil, err
